@@ -237,7 +237,9 @@ impl StateSpace for RealVectorStateSpace {
         for i in 0..self.dimension {
             let (lower, upper) = self.bounds[i];
 
-            if !lower.is_finite() || !upper.is_finite() {
+            // A finite interval whose width overflows (e.g. (-1e308, 1e308)) cannot be sampled by
+            // `random_range` either, so it is reported like an unbounded dimension.
+            if !lower.is_finite() || !upper.is_finite() || !(upper - lower).is_finite() {
                 return Err(StateSamplingError::UnboundedDimension { dimension_index: i });
             }
             if lower >= upper {
